@@ -40,7 +40,8 @@ Record smodel := {
   sm_first : string;
   sm_rows : list (list string);     (* smmodel.transition_table as given *)
   if_structs : list string; if_protos : list string; if_msgs : list string;    (* of the events interface *)
-  if_msgids : list (string * string)      (* message name -> str(MessageTypeID) *)
+  if_msgids : list (string * string);     (* message name -> str(MessageTypeID) *)
+  if_sigs : list (string * (string * string))   (* INTERFACE ORACLE: event name -> (get_event_signature(name, False), get_event_signature(name, True)), the Language* strings *)
 }.
 
 Definition transition_of (r : row) : transition :=
@@ -108,14 +109,20 @@ Definition tt_model (tt : list row) (structs protos msgs : list string) : option
               sm_actions := tt_collect r_action tt; sm_guards := tt_collect r_guard tt;
               sm_actionsigs := tt_actionsigs tt; sm_tps := tps_close (tt_states tt) tps;
               sm_first := match tt with [] => "NO TT PRESENT!" | r :: _ => r_state r end; sm_rows := map norm_row tt;
-              if_structs := structs; if_protos := protos; if_msgs := msgs; if_msgids := [] |}
+              if_structs := structs; if_protos := protos; if_msgs := msgs; if_msgids := []; if_sigs := [] |}
   end.
 
 (* the same model with the message ids of the events interface *)
 Definition with_msgids (ids : list (string * string)) (m : smodel) : smodel :=
   {| sm_states := sm_states m; sm_events := sm_events m; sm_actions := sm_actions m; sm_guards := sm_guards m;
      sm_actionsigs := sm_actionsigs m; sm_tps := sm_tps m; sm_first := sm_first m; sm_rows := sm_rows m;
-     if_structs := if_structs m; if_protos := if_protos m; if_msgs := if_msgs m; if_msgids := ids |}.
+     if_structs := if_structs m; if_protos := if_protos m; if_msgs := if_msgs m; if_msgids := ids; if_sigs := if_sigs m |}.
+
+(* the same model with the signature strings of the events interface (the oracle) *)
+Definition with_sigs (sigs : list (string * (string * string))) (m : smodel) : smodel :=
+  {| sm_states := sm_states m; sm_events := sm_events m; sm_actions := sm_actions m; sm_guards := sm_guards m;
+     sm_actionsigs := sm_actionsigs m; sm_tps := sm_tps m; sm_first := sm_first m; sm_rows := sm_rows m;
+     if_structs := if_structs m; if_protos := if_protos m; if_msgs := if_msgs m; if_msgids := if_msgids m; if_sigs := sigs |}.
 
 (* ---------------------------------------------------------------- inner expansion functions *)
 Definition rep (tagname v : string) (l : string) : string := replace_all (stag tagname) v l.
@@ -188,6 +195,73 @@ Definition idof (ids : list (string * string)) (name : string) : string :=
   match lookup String.eqb name ids with Some i => i | None => EmptyString end.
 Definition msgid_names (ids : list (string * string)) (name : string) (alpha cnt : nat) (line : string) : string :=
   rep "__TAG_MSGID__" (idof ids name) (proto_names name alpha cnt line).
+
+(* ---- <<<SIGNATURE>>> / <<<SIGNATUREWITHDEFAULTS>>> in a per-event block (innerexpand_secondfiltering, after the name tags):
+   the tag becomes get_event_signature(name, with_defaults) -- "" when the interface has no struct of that name --, then every
+   parenthesised group  ( ... )  of the line (from a '(' to the next ')') is cleaned of the spurious ", " an empty signature leaves.
+   The variant with user parameters in the tag (<<<SIGNATURE=...>>>) is not modelled. *)
+Definition sigof (sigs : list (string * (string * string))) (name : string) (with_defaults : bool) : string :=
+  match lookup String.eqb name sigs with Some p => if with_defaults then snd p else fst p | None => EmptyString end.
+
+Fixpoint span_rparen (s : string) : option (string * string) :=
+  match s with
+  | EmptyString => None
+  | String c r => if Ascii.eqb c ")"%char then Some (EmptyString, r)
+                  else match span_rparen r with Some (a, b) => Some (String c a, b) | None => None end
+  end.
+Definition clean_group (g : string) : string :=
+  replace_all "(," "(" (replace_all "( ," "(" (replace_all "( , " "(" (replace_all ",)" ")" (replace_all ", )" ")" (replace_all " , )" ")" g))))).
+(* re.sub("\\([^)]*\\)", clean_group, s) *)
+Fixpoint paren_go (fuel : nat) (s : string) : string :=
+  match fuel with
+  | O => s
+  | S f =>
+      match s with
+      | EmptyString => EmptyString
+      | String c r =>
+          if Ascii.eqb c "("%char then
+            match span_rparen r with
+            | Some (inner, rest) => (clean_group ("(" ++ inner ++ ")") ++ paren_go f rest)%string
+            | None => s
+            end
+          else String c (paren_go f r)
+      end
+  end.
+Definition paren_clean (s : string) : string := paren_go (String.length s) s.
+
+Definition sig_step (sigs : list (string * (string * string))) (name : string) (line : string) : option string :=
+  if hasSpecificTag line (stag "__TAG_SIGNATURE__") then
+    if hasDefault line then None
+    else let d := contains (stag "__TAG_SIGNATURE_DEF__") line in
+         Some (paren_clean (replace_all (if d then stag "__TAG_SIGNATURE_DEF__" else stag "__TAG_SIGNATURE__") (sigof sigs name d) line))
+  else Some line.
+
+(* the loop over the lines for one event, with the signature step before the unmodelled-tag test *)
+Fixpoint ev_lines (sigs : list (string * (string * string))) (name : string) (alpha cnt : nat) (snippet : list string) : option (list string) :=
+  match snippet with
+  | [] => Some []
+  | line :: r =>
+      match ev_lines sigs name alpha cnt r with
+      | None => None
+      | Some rest =>
+          if negb (hasTag line) then Some (if isspace line then rest else line :: rest)
+          else match sig_step sigs name (second_names name alpha cnt line) with
+               | None => None
+               | Some nl => if unmodelled nl then None else Some (if isspace nl then rest else nl :: rest)
+               end
+      end
+  end.
+Fixpoint ev_items (sigs : list (string * (string * string))) (alpha cnt : nat) (items : list string) (snippet : list string) : option (list string) :=
+  match items with
+  | [] => Some []
+  | name :: r =>
+      match ev_lines sigs name alpha cnt snippet, ev_items sigs (get_next_alphabet alpha) (S cnt) r snippet with
+      | Some a, Some b => Some (a ++ b)
+      | _, _ => None
+      end
+  end.
+Definition inner_events (sigs : list (string * (string * string))) (items : list string) (snippet : list string) (param : option string) : option (list string) :=
+  match param with Some _ => None | None => ev_items sigs reset_alphabet 0 items snippet end.
 
 Definition inner_second (items : list string) (snippet : list string) (param : option string) : option (list string) :=
   match param with Some _ => None | None => second_items second_names reset_alphabet 0 items snippet end.
@@ -297,7 +371,7 @@ Definition inner_of (m : smodel) (inner coll : string)
   : option (list string -> option string -> option (list string)) :=
   if String.eqb inner "innerexpand_secondfiltering" then
     if String.eqb coll "smmodel.states" then Some (inner_second (sm_states m))
-    else if String.eqb coll "smmodel.events" then Some (inner_second (sm_events m))
+    else if String.eqb coll "smmodel.events" then Some (inner_events (if_sigs m) (sm_events m))
     else if String.eqb coll "smmodel.actions" then Some (inner_second (sm_actions m))
     else if String.eqb coll "smmodel.guards" then Some (inner_second (sm_guards m))
     else None
